@@ -231,8 +231,15 @@ def gen_mcase(rng, kinds=('set', 'cascade', 'pop', 'match'), nops=None, run_impl
                     op = ('assign', i, gen_value(rng))
                 elif r < 0.75:
                     op = ('del', i)
+                    if rng.random() < 0.5:
+                        # the entry is gone now: removing it again must raise PopError or give the default
+                        ops.append(op)
+                        op = ('mpop', i, rng.choice([None, ({},), ([],), (None,), (0,), (gen_value(rng),)]))
                 elif r < 0.9:
-                    op = ('mpop', i, None if rng.random() < 0.5 else (gen_value(rng),))
+                    op = ('mpop', i, rng.choice([None, None, ({},), ([],), (None,), (gen_value(rng),)]))
+                    if rng.random() < 0.4:
+                        ops.append(op)
+                        op = ('mpop', i, rng.choice([None, ({},), ([],), (0,), (gen_value(rng),)]))
                 else:
                     op = ('read', i)
         ops.append(op)
